@@ -85,3 +85,23 @@ def gen_ops(rng, tier, ctx=None):
                 a = fix(((1 << (64 * sn - 3)) - 1) << (64 * sn) | rng.choice([4, 1000]) << (192 * sn) | rng.getrandbits(64 * sn), un)
             yield "mpn_mul %s %s" % (vec(limbs_of(a, un)), vec(limbs_of(b, vn)))
             yield "mpz_mul 0 %s %s" % (hx(a), hx(b))
+
+    # mpn_mulmod_2expm1 (also mpn_mulmod_bnm1 of mpn_redc_n): the CRT split into 2^h - 1 and 2^h + 1 halves treats a half
+    # residue equal to -1 (upper half of the operand = lower half + 1) through flags; exactly one such operand, both, neither;
+    # and products that come out as -1 modulo 2^h + 1
+    for b in [128, 192, 256, 640, 64 * 100, 64 * 128, 64 * 150, 64 * 256, 130, 250, 64 * 100 + 2]:
+        h = b // 2
+        if b % 2: continue
+        def m1():                               # = -1 modulo 2^h + 1
+            L = rng.getrandbits(h - 1)
+            return ((L + 1) << h | L) % (1 << b)
+        gen = lambda: rng.getrandbits(b - 1)
+        for y, z in [(m1(), gen()), (gen(), m1()), (m1(), m1()), (1 << h, gen()), (gen(), 1 << h), (1 << (h // 2), 1 << (h - h // 2)), (m1(), 0), (0, m1()), ((1 << b) - 2, m1())]:
+            n = (b + 63) // 64
+            yield "mpn_mulmod_2expm1 %x %s %s" % (b, vec(limbs_of(y % ((1 << b) - 1) if y >= (1 << b) - 1 else y, n)), vec(limbs_of(z, n)))
+    for b in [64, 128, 64 * 3, 64 * 8, 64 * 50, 64 * 64, 64 * 128, 100, 190]:
+        n = (b + 63) // 64
+        for y, z in [(1 << (b // 2), 1 << (b - b // 2)), (1 << (b - 1), 2), ((1 << b) - 1, (1 << b) - 1), (3, ((1 << b) + 1) // 3 if ((1 << b) + 1) % 3 == 0 else 5)]:
+            if y < (1 << b) and z < (1 << b):
+                yield "mpn_mulmod_2expp1 0 %x %s %s" % (b, vec(limbs_of(y, n)), vec(limbs_of(z, n)))
+                yield "fft_mulmod_2expp1 0 %x %s %s" % (b, vec(limbs_of(y, n)), vec(limbs_of(z, n)))
